@@ -5,7 +5,7 @@
 //! inbound accounting through the real shell function
 //! `process_connection_events`), against one `BTreeSet<i32>` per link.
 
-use std::collections::BTreeSet;
+use std::collections::{BTreeMap, BTreeSet};
 use std::sync::Arc;
 use std::time::Duration;
 
@@ -82,12 +82,18 @@ pub struct St {
     next: i32,
     last_sent: Option<i32>,
     prev_ack: Option<i32>,
+    /// tracked models only: the real NAK-attribution tracker, fed the way the shell feeds it (at queue
+    /// time), and the model of it (number -> link that queued it last)
+    tracker: Option<Arc<SequenceTracker>>,
+    tmodel: BTreeMap<i32, usize>,
 }
 
 pub struct M {
     pub links: usize,
     pub base: i32,
     events: Vec<Ev>,
+    /// feed the NAK-attribution tracker (otherwise it stays empty: fallback scan)
+    tracked: bool,
 }
 
 pub struct W {
@@ -146,20 +152,21 @@ impl M {
                 events.push(Ev::Reset(l, ResetKind::Reg3));
             }
         }
-        Self {
-            links,
-            base,
-            events,
-        }
+        Self { links, base, events, tracked: false }
     }
 
     fn label(&self, reduced: bool) -> String {
         format!(
-            "links={} base={} alphabet={}",
+            "links={} base={} alphabet={}{}",
             self.links,
             self.base,
-            if reduced { "reduced" } else { "full" }
+            if reduced { "reduced" } else { "full" },
+            if self.tracked { " tracker=fed" } else { "" }
         )
+    }
+    pub fn tracked(mut self) -> Self {
+        self.tracked = true;
+        self
     }
 
     fn ack_target(&self, s: &St, k: AckKind) -> Option<i32> {
@@ -302,8 +309,18 @@ fn run_events(
     idx: usize,
     incoming: SrtlaIncoming,
 ) -> Result<(), Fail> {
+    run_events_with(w, None, conns, idx, incoming)
+}
+
+fn run_events_with(
+    w: &mut W,
+    own: Option<&SequenceTracker>,
+    conns: &mut [SrtlaConnection],
+    idx: usize,
+    incoming: SrtlaIncoming,
+) -> Result<(), Fail> {
     let listener = &w.rt.listener;
-    let tracker = &w.tracker;
+    let tracker = own.unwrap_or(&w.tracker);
     w.rt.rt
         .block_on(process_connection_events(
             idx, conns, None, listener, tracker, false, incoming,
@@ -337,6 +354,8 @@ impl Model for M {
             next: self.base,
             last_sent: None,
             prev_ack: None,
+            tracker: if self.tracked { Some(Arc::new(SequenceTracker::new())) } else { None },
+            tmodel: BTreeMap::new(),
         };
         if i == 1 {
             // non-initial situation reached by the real code: 10 packets
@@ -394,6 +413,10 @@ impl Model for M {
                 let pkt = srt_data(seq as u32, false, seq as u32, 32);
                 // production registration path: queue, then drain the batch
                 s.conns[l].queue_data_packet(&pkt, Some(seq as u32), now);
+                if let Some(t) = s.tracker.as_mut() {
+                    Arc::make_mut(t).insert(seq as u32, s.conns[l].conn_id, now);
+                    s.tmodel.insert(seq, l);
+                }
                 let b = s.conns[l].take_batch(now);
                 let nq = s.queued[l].len();
                 if b.len() != nq + 1 {
@@ -418,6 +441,10 @@ impl Model for M {
                 let seq = s.next;
                 let pkt = srt_data(seq as u32, false, seq as u32, 32);
                 s.conns[l].queue_data_packet(&pkt, Some(seq as u32), now);
+                if let Some(t) = s.tracker.as_mut() {
+                    Arc::make_mut(t).insert(seq as u32, s.conns[l].conn_id, now);
+                    s.tmodel.insert(seq, l);
+                }
                 s.queued[l].push(seq);
                 s.next += 1;
                 s.last_sent = Some(seq);
@@ -520,7 +547,8 @@ impl Model for M {
                     let mut inc = SrtlaIncoming::default();
                     inc.read_any = true;
                     inc.nak_numbers.push(seq);
-                    run_events(w, &mut s.conns, 0, inc)?;
+                    let tr = s.tracker.clone();
+                    run_events_with(w, tr.as_deref(), &mut s.conns, 0, inc)?;
                     let lost: Vec<usize> = holders
                         .iter()
                         .copied()
@@ -528,6 +556,10 @@ impl Model for M {
                         .collect();
                     let ok = if holders.is_empty() {
                         true
+                    } else if let (true, Some(named)) = (self.tracked, s.tmodel.get(&seq_i)) {
+                        // the tracker remembers who queued the number last: only that link can be charged,
+                        // and if it no longer holds the number the NAK retires nothing
+                        if holders.contains(named) { lost == vec![*named] } else { lost.is_empty() }
                     } else {
                         lost.len() == 1
                     };
@@ -620,6 +652,9 @@ fn models(tier: Tier) -> Vec<(String, Arc<M>, Vec<Plan>)> {
         // three links: an SRTLA ACK arriving on a link that does not hold the number while two others do
         let (l, m) = mk(3, 1000, true);
         out.push((l, m, vec![Plan::Full { depth: 4 }]));
+        // the NAK-attribution tracker fed as the shell feeds it: a NAK retires the number only on the link the tracker names
+        let m = Arc::new(M::new(2, 1000, true).tracked());
+        out.push((m.label(true), m, vec![Plan::Full { depth: 4 }]));
     } else {
         let (l, m) = mk(1, 1000, false);
         let d = send0(&m);
@@ -665,6 +700,10 @@ fn models(tier: Tier) -> Vec<(String, Arc<M>, Vec<Plan>)> {
                 },
             ],
         ));
+        let m = Arc::new(M::new(2, 1000, true).tracked());
+        out.push((m.label(true), m, vec![Plan::Full { depth: 5 }]));
+        let m = Arc::new(M::new(3, 1000, true).tracked());
+        out.push((m.label(true), m, vec![Plan::Full { depth: 4 }]));
         let (l, m) = mk(4, 1000, true);
         let d = send0(&m);
         out.push((
@@ -704,7 +743,7 @@ pub fn run(tier: Tier) -> Report {
         json!("after every event, per link: packet_log keys == BTreeSet model; in_flight_packets == |set| >= 0; queued_count == model queue; get_score() == window/(|set|+queued+1) or -1 when disconnected; SRTLA ACK retires the arrival link's copy first, else exactly one other holder; NAK retires exactly one holder; numbers a link does not hold leave it untouched; cumulative ACK a retires {s<=a} on every link whatever ACKs came before"),
     );
     rep.assume("sequence numbers stay inside a span of the 31-bit space that does not wrap (C02's quantifier)");
-    rep.assume("inbound accounting is driven through the real shell function process_connection_events with a hand-built SrtlaIncoming (the parsers are C15's subject; the full parser->dispatch path is C09's); the NAK-attribution tracker is empty here (fallback scan), the tracker path is C05's subject");
+    rep.assume("inbound accounting is driven through the real shell function process_connection_events with a hand-built SrtlaIncoming (the parsers are C15's subject; the full parser->dispatch path is C09's); the NAK-attribution tracker is empty (fallback scan) except in the models labelled tracker=fed, where it is fed at queue time like the shell does and a NAK must retire the number on the link the tracker names, or nowhere if that link no longer holds it; expiry and slot collisions of the tracker are C05's subject");
     rep.assume("histories are bounded by the stated depths / deviation bounds");
     rep
 }
